@@ -146,7 +146,7 @@ def parse_sections(ans):
     for sec in ans.split("|"):
         if sec == "-" or sec == "":
             out.append([])
-        elif sec in ("ginv", "not-ginv", "no-pinv", "pinv", "not-pinv", "keyerror"):
+        elif sec in ("ginv", "not-ginv", "no-pinv", "pinv", "not-pinv", "keyerror", "indexerror"):
             out.append(sec)
         else:
             out.append([_tok(t) for row in sec.split(";") for t in row.split(",") if t != "-"])
@@ -274,6 +274,25 @@ def lattr_request(directed, n, links, W, perm):
     Wq = [[Fraction(float(x)) for x in row] for row in W]
     return (f"lattr {','.join(map(str, perm))} {int(directed)} {n} "
             f"{','.join(f'{i}-{j}' for i, j in links) or '-'} {enc_ratmat(Wq)}")
+
+
+def enc_emb(x):
+    return ";".join(",".join(enc_rat(Fraction(float(v))) for v in row) for row in x)
+
+
+def recrate_request(x, metric, k, local, perm):
+    return f"recrate {','.join(map(str, perm))} {metric} {k} {int(local)} {enc_emb(x)}"
+
+
+def recjoint_request(x, y, metric, tx, ty, perm):
+    return (f"recjoint {','.join(map(str, perm))} {metric} {enc_rat(Fraction(float(tx)))} "
+            f"{enc_rat(Fraction(float(ty)))} {enc_emb(x)} {enc_emb(y)}")
+
+
+def recisrn_request(x, y, metric, tx, ty, txy, px, py):
+    return (f"recisrn {','.join(map(str, px))} {','.join(map(str, py))} {metric} "
+            f"{enc_rat(Fraction(float(tx)))} {enc_rat(Fraction(float(ty)))} "
+            f"{enc_rat(Fraction(float(txy)))} {enc_emb(x)} {enc_emb(y)}")
 
 
 def compare_sections(kind, ans, impl, tol):
@@ -525,7 +544,7 @@ def shuffled_links(Ap, directed, rng, both=False):
     return [(int(i), int(j)) for i, j in E]
 
 
-CONSTRUCTION_PATHS = ("edge_list", "edge_list_both_orientations", "set_edge_list", "sparse_coo",
+CONSTRUCTION_PATHS = ("dense_float32_fortran", "dense_bool_strided_view", "edge_list", "edge_list_both_orientations", "set_edge_list", "sparse_coo",
                       "sparse_csr", "sparse_lil", "adjacency_setter", "FromIGraph",
                       "FromIGraph_attribute_in_graph", "FromIGraph_copy", "FromIGraph_permuted_copy",
                       "FromIGraph_history", "Load_graphml", "Load_graphml_attribute_in_file",
@@ -553,7 +572,24 @@ def build_via(path, Ap, directed, wp, Wp, ap, rng, tmpdir, grid=None, A0=None, W
         if W is not None:
             g.es["w"] = [float(W[e]) for e in edges]
         return g
-    if path in ("edge_list", "edge_list_both_orientations"):
+    if path == "dense_float32_fortran":
+        # caller arrays in the other float width and memory layout (values are dyadic: exact)
+        net = Network(adjacency=np.asfortranarray(Ap.astype(np.float32)), directed=directed,
+                      node_weights=wp.astype(np.float32), silence_level=3)
+        net.set_link_attribute("w", np.asfortranarray(Wp.astype(np.float32)))
+        set_after = False
+    elif path == "dense_bool_strided_view":
+        big = np.zeros((2 * n, 3 * n), dtype=bool)
+        big[::2, ::3] = Ap.astype(bool)
+        bigw = np.zeros(2 * n)
+        bigw[::2] = wp
+        bigW = np.zeros((n, 2 * n))
+        bigW[:, 1::2] = Wp
+        net = Network(adjacency=big[::2, ::3], directed=directed, node_weights=bigw[::2],
+                      silence_level=3)
+        net.set_link_attribute("w", bigW[:, 1::2])
+        set_after = False
+    elif path in ("edge_list", "edge_list_both_orientations"):
         net = Network(edge_list=E, n_nodes=n, directed=directed, node_weights=wp, silence_level=3)
     elif path == "set_edge_list":
         net = Network(adjacency=np.zeros((n, n), dtype=int), directed=directed, node_weights=wp,
@@ -859,9 +895,10 @@ def run(ctx):
                              [m for m in meas["GeoNetwork"] if m not in meas["SpatialNetwork"]], n,
                              dict(base, lat=lat.tolist(), lon=lon.tolist()), variants=True)
             # round 4: every construction path, attributes set after construction
-            if A.sum() > 0 and (not quick or n >= 5 or rng.random() < 0.15):
+            # (a bounded share of the pairs: ~1 500 calls per pair when every measure is compared)
+            if A.sum() > 0 and rng.random() < ((1.0 if n >= 5 else 0.15) if quick else 0.12):
                 construction_paths(ctx, A, directed, w, W, pos, lat, lon, perm, base, meas,
-                                   (not quick) or rng.random() < 0.34, reqs, meta)
+                                   rng.random() < 0.34, reqs, meta)
             # node-list arguments are renumbered with the network
             if not directed and n >= 3:
                 interacting(ctx, A, w, W, g0, perm, base)
@@ -916,7 +953,8 @@ def run(ctx):
                     "average, admittive degree / clustering; `isGinv` hypothesis of res_effRes_relabel)",
              "geo": "C12 model `Geo` (squared grid distances of renumbered coordinates, link-distance "
                     "measures)",
-             "rec": "C07 model `Recurrence` (recurrence-network adjacency of reordered state vectors)",
+             "rec": "C07 model `Recurrence` (recurrence-network adjacency of reordered state vectors: fixed "
+                    "threshold, fixed global / local recurrence rate, joint, inter-system)",
              "lattr": "C05 model `Repr` (set_link_attribute then link_attribute on the links in the "
                       "order the twin's embedded igraph object lists them, every construction path)"}
     for k in TOL:
@@ -996,6 +1034,22 @@ def timeseries_networks(ctx, reqs, meta):
             idx = np.arange(n) if p is None else np.array(p)
             return RecurrenceNetwork(x[idx], metric=metric, local_recurrence_rate=rate,
                                      silence_level=3)
+        # round 4: C07's models of the rate thresholds, of the joint product and of the
+        # inter-system assembly on the reordered state vectors == the implementation
+        # (`rec_fixedRate_relabel`, `rec_localRate_relabel`, `rec_joint_relabel`,
+        # `rec_intersystem_relabel`); the order-statistic indices are computed as the source does
+        reqs.append(recrate_request(x, metric, int(rate * (n * n - 1)), False, perm))
+        meta.append(("rec", f"ts{rep}:rate", tuple(perm),
+                     [flat(np.asarray(mk_rn_rr(perm).adjacency, dtype=float))]))
+        reqs.append(recrate_request(x, metric, int(rate * (n - 1)), True, perm))
+        meta.append(("rec", f"ts{rep}:local-rate", tuple(perm),
+                     [flat(np.asarray(mk_rn_lrr(perm).adjacency, dtype=float))]))
+        reqs.append(recjoint_request(x, y, metric, thr, thr + 0.5, perm))
+        meta.append(("rec", f"ts{rep}:joint", tuple(perm),
+                     [flat(np.asarray(mk_jrn(perm).adjacency, dtype=float))]))
+        reqs.append(recisrn_request(x, z, metric, thr, thr, thr + 0.5, perm, pz))
+        meta.append(("rec", f"ts{rep}:inter-system", tuple(perm + [n + k for k in pz]),
+                     [flat(np.asarray(mk_isrn(perm).adjacency, dtype=float))]))
         equivariance(ctx, "RecurrenceNetwork", mk_rn_rr, perm,
                      own(RecurrenceNetwork, RecurrencePlot), n,
                      dict(base, cls="RecurrenceNetwork", recurrence_rate=rate))
